@@ -395,7 +395,7 @@ func (e EvmEngine) applyRun(r *Run, s *Step, o *Outcome) {
 	}
 	// the committed run keeps the history moving
 	if cg := s.A.U64("commit"); cg > 0 {
-		br := w.DeliverBlock([]Tx{{K: "eth_call", S: s.A.Str("sender"), A: A("to", root.Hex(), "data", hex.EncodeToString(mask), "value", "0"), Gas: cg}}, 5*time.Second, 0)
+		br := w.DeliverBlock([]Tx{{K: "eth_call", S: s.A.Str("sender"), A: A("to", root.Hex(), "data", hex.EncodeToString(mask), "value", "0", "victimcall", s.A.Str("victimcall")), Gas: cg}}, 5*time.Second, 0)
 		o.Txs, o.Halt = br.Out, br.Halt
 		r.SimTimeMs += 5000
 	}
